@@ -19,7 +19,7 @@ META = dict(
     text="All combinations of configuration count (1-3), displacement spec (scalar / per-element / anisotropic), directions, seeds, ensemble_mean, "
          "builder, detector, exit planes, scan and evaluation mode are simulated and every member is compared with an independent eager simulation "
          "of that single displaced configuration; the configurations themselves are compared across every composition-chunking, lazy/eager "
-         "partitioning, single-seed regeneration and all processing orders. A breadth-first search over use histories (7 kinds of use, depth 3 / 4, never merged) of one ensemble + potential object pair requires every use to give what a fresh object gives.",
+         "partitioning, single-seed regeneration and all processing orders. Five ensembles of one structure that differ only in seeds / displacement spec are evaluated together in every subset (one dask.compute call) and each must equal its own separate evaluation. A breadth-first search over use histories (7 kinds of use, depth 3 / 4, never merged) of one ensemble + potential object pair requires every use to give what a fresh object gives.",
     note="Bound: <= 3 configurations, 2 atoms, 16x12 grid, 2 slices. Tolerance 2e-5 (float32, different batch shapes). The reference uses abTEM's own "
          "Potential on the displaced atoms, so only the ensemble mechanism is under test.",
 )
@@ -148,11 +148,52 @@ def check(ctx):
     P = [{"kind": k, "n": n, "sigma": "scalar", "dir": "xyz", "seed": 0, "mean": False, "interp": ip, "route": r}
          for k, n in (("fp", 2), ("fp", 3), ("ae", 2)) for ip in (1, 2) for r in ("build-eager-reduce", "reduce-eager", "reduce-lazy", "build-lazy-compute-reduce")]
     ctx.run(P, "run_prism", rule="P: PRISM (interpolation 1, 2) x 4 build / reduce routes vs per-configuration S-matrix runs", space="P prism")
+    J = [{"route": r} for r in ("potential", "pw", "probe")]
+    ctx.run(J, "run_joint", rule="J: per route all 26 subsets (size >= 2) of 5 ensembles of the same structure (3 seed tuples, 2 displacement specs, one repeat) in one dask.compute call", space="J joint graphs", batch=1)
     # H: histories on ONE FrozenPhonons + Potential object pair: whatever was done with it before (iterated, built eagerly / lazily, used in
     # an eager or lazy multislice, partitioned), the next use gives what a fresh object gives
     H = [{"kind": kind, "n": n, "first": f, "depth": 3 if q else 4} for kind in ("fp", "ae") for n in (2, 3) for f in range(len(HEVENTS))]
     ctx.run(H, "run_history", rule="H: BFS over all sequences of %d uses of one ensemble object (depth 3 quick / 4 thorough), never merged" % len(HEVENTS), space="H object histories")
 
+
+
+JOINT_MEMBERS = [("scalar", (1, 2)), ("scalar", (11, 7)), ("scalar", (5, 6)), ("element", (1, 2)), ("scalar", (1, 2))]  # the last repeats the first
+
+
+def run_joint(c):
+    """Several frozen-phonon ensembles of the SAME structure (different seeds / displacement specs) evaluated in ONE dask.compute call:
+    every subset of size >= 2; each ensemble must come out as it does when computed on its own (which space A ties to the independent runs)."""
+    import abtem
+    import dask
+    from mc import universe as U
+
+    def lazy_obj(i):
+        sg, seed = JOINT_MEMBERS[i]
+        fp = abtem.FrozenPhonons(U.atoms("A1"), len(seed), SIGMAS[sg], seed=seed)
+        pot = abtem.Potential(fp, gpts=U.GPTS, slice_thickness=2.0)
+        if c["route"] == "potential":
+            return pot.build(lazy=True)
+        if c["route"] == "pw":
+            return abtem.PlaneWave(energy=100e3).multislice(pot, lazy=True)
+        return abtem.Probe(energy=100e3, semiangle_cutoff=20).multislice(pot, scan=U.scan("custom"), detectors=U.detector("pix"), lazy=True)
+
+    n = len(JOINT_MEMBERS)
+    alone = [np.asarray(lazy_obj(i).compute().array) for i in range(n)]
+    viol, worst, tr, distinct = [], 0.0, n, 0
+    for i, j in itertools.combinations(range(n - 1), 2):
+        distinct += int(float(np.abs(alone[i] - alone[j]).max()) > 1e-3 * float(np.abs(alone[i]).max()))
+    for r in range(2, n + 1):
+        for sub in itertools.combinations(range(n), r):
+            got = dask.compute(*[lazy_obj(i).array for i in sub])
+            tr += 1
+            for i, g in zip(sub, got):
+                g = np.asarray(g)
+                e = float(np.abs(g - alone[i]).max()) / float(np.abs(alone[i]).max()) if g.shape == alone[i].shape else np.inf
+                worst = max(worst, e / RTOL)
+                if not e <= RTOL and not any(v["key"].startswith("joint/") for v in viol):
+                    viol.append({"key": "joint/%s" % c["route"], "msg": "ensembles %r evaluated in one dask.compute: ensemble %d (sigma %s, seeds %r) differs from its own separate evaluation by %.3g relative (%s)" % (
+                        [JOINT_MEMBERS[k] for k in sub], i, JOINT_MEMBERS[i][0], JOINT_MEMBERS[i][1], e, c)})
+    return {"viol": viol, "obs": "%d distinct pairs" % distinct, "nt": distinct >= 3, "tr": tr, "ref": tr, "err": worst}
 
 
 def run_members(c):
